@@ -480,6 +480,20 @@ def _ops_equal(a, b):
 
 
 def code_stage(pid, name, sessions, max_steps=300, timeout=3000):
+    """see _code_stage; this stage only binds the auxiliary model BasicVM to the code and reports drift: whatever
+    happens in it (a time-out, a session the model cannot evaluate) is a note in the evidence, never a failure or
+    a tool error of the property's check"""
+    try:
+        return _code_stage(pid, name, sessions, max_steps, timeout)
+    except Exception as e:           # noqa: BLE001
+        st = Stage()
+        st.notes[name] = {"sessions": len(sessions), "not_evaluated": str(e)[:400]}
+        print("NOTE %s/%s: the implementation-level model (BasicVM) could not be compared with the code here: %s"
+              % (pid, name, str(e)[:200]))
+        return st
+
+
+def _code_stage(pid, name, sessions, max_steps=300, timeout=3000):
     """BasicVM against the code, whole sessions: every command of a session is delivered to the real interpreter and
     executed one execute(1) at a time (interrupts after the session's `int_after` opcodes).  For every direct command
     the opcodes the interpreter's compiler and linker emitted must be the opcodes BasicVM!Compile gives for the
@@ -495,7 +509,7 @@ def code_stage(pid, name, sessions, max_steps=300, timeout=3000):
             f.write(json.dumps(s_) + "\n")
     cp = os.path.join(d, name + ".code.ndjson")
     t0 = time.time()
-    common.run_bvh(["code", sp, cp, str(max_steps)])
+    common.run_bvh(["code", sp, cp, str(max_steps)], timeout=900)
     twall = time.time() - t0
     real = {}
     for line in open(cp):
